@@ -13,6 +13,7 @@ import z3
 
 VERIF = os.path.dirname(os.path.dirname(os.path.abspath(__file__)))
 REPO = os.environ.get('VERIF_REPO', '/repo')
+OUT = os.environ.get('VERIF_OUT', VERIF)   # where evidence/ and replays/ go (scratch runs against seeded trees)
 
 
 class Obligations(object):
@@ -249,7 +250,7 @@ def match_known(known, cex):
 
 
 def write_replay(prop, cex):
-    d = os.path.join(VERIF, 'replays', prop)
+    d = os.path.join(OUT, 'replays', prop)
     os.makedirs(d, exist_ok=True)
     blob = json.dumps(cex, sort_keys=True, default=str)
     path = os.path.join(d, hashlib.sha1(blob.encode()).hexdigest()[:12] + '.json')
@@ -385,8 +386,8 @@ def main(mod, tier, seed):
     ev = {'property_id': prop, 'tier': tier, 'seed': seed, 'level': level, 'coverage': cov,
           'assumptions': list(getattr(mod, 'ASSUMPTIONS', [])), 'wall_s': round(wall, 2),
           'violations': len(violations)}
-    os.makedirs(os.path.join(VERIF, 'evidence'), exist_ok=True)
-    with open(os.path.join(VERIF, 'evidence', prop + '.json'), 'w') as f:
+    os.makedirs(os.path.join(OUT, 'evidence'), exist_ok=True)
+    with open(os.path.join(OUT, 'evidence', prop + '.json'), 'w') as f:
         json.dump(ev, f, indent=1, default=str)
     print('%s %s: cases=%d obligations=%d unsat=%d sat=%d (known=%d) unknown=%d errors=%d wall=%.1fs solver=%.1fs'
           % (prop, tier, len(cases), n_obl, n_unsat, len(cexs), sum(v[1] for v in known_hits.values()),
